@@ -30,9 +30,17 @@ theorem C10_total_parseSequenceFile (bs : Bytes) : ∃ r, Model.parseSequenceFil
 theorem C10_total_isSequenceFile (bs : Bytes) : ∃ r, Model.isSequenceFile bs = .ok r :=
   isSequenceFile_total bs
 
-/-- ParseRelMapFile returns on every byte string. -/
+/-- ParseRelMapFile returns on every byte string (with fixes/control/21: the constant reads `data[520:524]` /
+`data[504:508]` are guarded by relMapIsV16's length test / the 512-byte test). -/
 theorem C10_total_parseRelMapFile (bs : Bytes) : ∃ r, Model.parseRelMapFile bs = .ok r :=
   parseRelMapFile_total bs
+
+/-- relMapIsV16 (fixes/control/21) returns on every byte string and every count — its slices `data[0:520]`,
+`data[520:524]`, `data[0:504]`, `data[504:508]` are reached only with at least 524 bytes — and answers "16" only then,
+which is what makes the caller's `data[520:524]` safe. -/
+theorem C10_total_relMapIsV16 (bs : Bytes) (n : Int) :
+    ∃ b, Model.relMapIsV16 bs n = .ok b ∧ (b = true → 524 ≤ bs.length) :=
+  relMapIsV16_total bs n
 
 /-- The code as written was not total: a page with the sequence magic whose only tuple is 23 bytes long with
 t_hoff = 0 makes `tupleData[24:]` panic (replayed on the real code by family seq_any_orig). -/
